@@ -29,7 +29,12 @@ RULE = ("stream 1 (about 3/4): random abstract linearisations (1-14 atoms; branc
         "pair, ring closed on its own atom, unclosed ring); stream 2 (about 1/4): malformed texts (token soup over the whole "
         "vocabulary incl. / \\ unknown characters, blanks and newlines, unbalanced parentheses, leading digits; single-character "
         "edits of well-formed texts). Corpus: the D1-D5 witnesses, every string pinned in test/test_parse.py, KeyError/IndexError "
-        "witnesses. thorough adds the exhaustive set of all 2- and 3-atom chains/branches over 6 atom kinds x 8 bond symbols and "
+        "witnesses. STATE LEAKS: before about 30% of the ordinary cases one or two state-disturbing texts (reaction bonds, rings / "
+        "branches left open, pending bond symbols, texts aborted by SyntaxError/IndexError/KeyError after opening rings) are "
+        "parsed first, either through the module-level parse() or on the SAME Parser object as the real call; plus HISTORY cases "
+        "(n/8; kind=history): one Parser object (both graph classes, init_aam both, parse() and __call__) parses 2-4 such texts "
+        "mixed with random well-formed and malformed texts at varying offsets and EVERY result (serialised after the whole "
+        "sequence) is compared with the model's fresh parse of that text alone. thorough adds the exhaustive set of all 2- and 3-atom chains/branches over 6 atom kinds x 8 bond symbols and "
         "all 3-ring closures over {C,c}. non-trivial = parses to >= 2 nodes and uses a branch, ring mark, dot or <g,h> bond, or is "
         "rejected; distinct = distinct (text, offset, init_aam, multigraph)")
 TRUSTED = [
@@ -435,11 +440,65 @@ def gen_malformed(rng):
 OFFSETS = [0, 0, 0, 0, 1, 3, 17, -2]
 
 
-def mk_case(kind, text, chain, rng=None, multi=False, off=None, aam=None):
+# Texts that leave something behind in a Parser object if its state is not reset between calls: reaction bonds (is_its),
+# rings left open (tolerated input), branches left open, a pending bond symbol, texts aborted by an exception after
+# opening rings / branches, labelled nodes. Used (a) as members of HISTORY cases (one Parser object parses a sequence of
+# texts, every result is compared) and (b) as pre-calls before ordinary cases.
+DISTURB = [
+    "C<1,2>C", "C1<2,>C<,2>C1", "c1cc<0,1>ccc1", "C<,>", "C<2,1>",                         # reaction bonds (+ pending pair)
+    "CC1CC", "C1C2C3CC", "c1ccccc", "C1CC2", "C12C", "C01C", "C10CC", "C3CC4",                # rings left open
+    "C(C", "C((C", "CC(C(=O", "C(", "C1(CC",                                               # branches left open
+    "C=", "CC#", "C.", "c:", "C$",                                                        # pending bond symbol
+    "C1CX", "C1C2C3(C?", "C2(C<1,2>C!", "1CC", "C1CC1[", "c1cc(C*",                       # SyntaxError, mid-way
+    "C)C", "CC1)", "C1(C))",                                                               # IndexError
+    "C/C", "C1C\\C", "C1(C/",                                                              # KeyError
+    "C{a,b}C", "{g}1CC1", "{x}({y})1", "R1RR",                                             # labels / wildcards
+    "CCO", "c1ccccc1", "CC(=O)O", "C1CC1", "C1CCC1C1CC1", "c1ccc2ccccc2c1", "Cl", "", "C",  # plain
+]
+
+
+def rand_pre(rng):
+    return [rng.choice(DISTURB) for _ in range(rng.choice([1, 1, 2]))]
+
+
+def mk_case(kind, text, chain, rng=None, multi=False, off=None, aam=None, pre=None, via=None):
+    """via = "fresh": a fresh call (module-level parse() for Graph, a new Parser object for MultiGraph);
+             "module": `pre` texts are first parsed with the module-level parse() (exceptions ignored), then the real call;
+             "object": ONE Parser object parses the `pre` texts (exceptions ignored) and then the real text."""
     if rng is not None:
         off = rng.choice(OFFSETS) if off is None else off
         aam = (rng.random() < 0.25) if aam is None else aam
-    return {"kind": kind, "text": text, "chain": chain, "offset": off or 0, "aam": bool(aam), "multi": bool(multi)}
+        if pre is None and rng.random() < 0.3:
+            pre = rand_pre(rng)
+            via = "object" if (multi or rng.random() < 0.4) else "module"
+    return {"kind": kind, "text": text, "chain": chain, "offset": off or 0, "aam": bool(aam), "multi": bool(multi),
+            "pre": list(pre or []), "via": (via or ("object" if multi else "module")) if pre else "fresh"}
+
+
+def mk_history(rng):
+    """One Parser object, 2-4 texts; EVERY result must be what a fresh parse of that text alone gives."""
+    multi = rng.random() < 0.4
+    aam = rng.random() < 0.3
+    k = rng.choice([2, 3, 3, 4])
+    texts = []
+    for j in range(k):
+        r = rng.random()
+        if r < 0.55:
+            texts.append(rng.choice(DISTURB))
+        elif r < 0.85:
+            c, _ = gen_wellformed(rng)
+            texts.append(p_chain(c))
+        else:
+            texts.append(gen_malformed(rng))
+    texts = [t for t in texts if all(ord(ch) < 127 for ch in t)] or ["C<1,2>C", "CCO"]
+    if len(texts) < 2:
+        texts.append("CC1CC")
+    if rng.random() < 0.5:                      # make sure plain texts follow the disturbing ones
+        texts.append(rng.choice(["CCO", "C1CC1", "c1ccccc1", "CC(C)=O", "C1CC2C1C2", "C=C", "CC"]))
+    return {"kind": "history", "texts": texts, "offsets": [rng.choice(OFFSETS) for _ in texts],
+            "chains": [to_chain(t) for t in texts], "aam": aam, "multi": multi,
+            "text": " | ".join(texts), "chain": None, "offset": 0, "pre": [], "via": "object",
+            "call": [rng.random() < 0.5 for _ in texts]}
 
 
 def exhaustive_cases():
@@ -485,6 +544,8 @@ def generate(seed, tier, ncases=None):
         else:
             c, multi = gen_wellformed(rng)
             yield mk_case("chain", p_chain(c), c, rng, multi=multi)
+    for i in range(max(1, n // 8)):
+        yield mk_history(lib.rng_for(seed, ID + "-history", i))
 
 
 CORPUS_TEXTS = [
@@ -507,6 +568,17 @@ def corpus():
         yield mk_case("corpus", t, ch, off=0, aam=False, multi=False)
     for t in ["C1=C1", "C1CC1", "C1-1", "C1CC=1", "C=1CC1", "C1C1=1", "C<1,2>1C1", "c1c1", "C.C<1,2>C"]:
         yield mk_case("corpus", t, to_chain(t), off=0, aam=False, multi=True)
+    # state must not leak between calls (review findings): same Parser object / module-level parse()
+    for multi in (False, True):
+        for texts in (["C<1,2>C", "CCO"], ["CC1CC", "C1CC1"], ["C(C", "C)C", "CC"], ["C1CX", "C1CC1"], ["C=", "CC"],
+                      ["C/C", "C{a}C", "c1ccccc1"], ["C<,>", "cc", "C1C1"]):
+            yield {"kind": "history", "texts": texts, "offsets": [0] * len(texts), "chains": [to_chain(t) for t in texts],
+                   "aam": False, "multi": multi, "text": " | ".join(texts), "chain": None, "offset": 0, "pre": [],
+                   "via": "object", "call": [False] * len(texts)}
+    for pre, t in ((["C<1,2>C"], "CCO"), (["CC1CC"], "C1CC1"), (["C1CX"], "CC1CC1"), (["C(C"], "C)C"), (["C1C2C3CC", "C="], "C1CC2CC2C1")):
+        yield mk_case("corpus", t, to_chain(t), off=0, aam=False, multi=False, pre=pre, via="module")
+        yield mk_case("corpus", t, to_chain(t), off=0, aam=False, multi=False, pre=pre, via="object")
+        yield mk_case("corpus", t, to_chain(t), off=0, aam=False, multi=True, pre=pre, via="object")
     yield mk_case("corpus", "CO", to_chain("CO"), off=1, aam=True, multi=False)
     yield mk_case("corpus", "C1CC1", to_chain("C1CC1"), off=5, aam=True, multi=True)
 
@@ -516,18 +588,41 @@ def corpus():
 ERRS = {"SyntaxError": "ESyntax", "IndexError": "EIndex", "KeyError": "EKey", "ValueError": "EValue"}
 
 
-def run_impl(c):
-    toks = [(t, v) for t, v, _ in fp.tokenize(c["text"])]
+def _call(f, *a, **kw):
     try:
-        if c["multi"]:
-            g = fp.Parser(use_multigraph=True, init_aam=c["aam"]).parse(c["text"], idx_offset=c["offset"])
-        else:
-            g = fp.parse(c["text"], idx_offset=c["offset"], init_aam=c["aam"])
-        if g.is_multigraph() != c["multi"]:
-            return ("WrongClass", "graph class %s" % type(g).__name__, toks)
-        return ("ok", g, toks)
+        return ("ok", f(*a, **kw))
     except Exception as e:       # the class is the observable result
-        return (type(e).__name__, str(e)[:200], toks)
+        return (type(e).__name__, str(e)[:200])
+
+
+def _toks(text):
+    return [(t, v) for t, v, _ in fp.tokenize(text)]
+
+
+def run_impl(c):
+    if c["kind"] == "history":
+        parser = fp.Parser(use_multigraph=c["multi"], init_aam=c["aam"])
+        outs = []
+        for text, off, use_call in zip(c["texts"], c["offsets"], c["call"]):
+            r = _call(parser, text, off) if use_call else _call(parser.parse, text, idx_offset=off)
+            if r[0] == "ok" and r[1].is_multigraph() != c["multi"]:
+                r = ("WrongClass", "graph class %s" % type(r[1]).__name__)
+            outs.append(r + (_toks(text),))
+        # results are serialised only after the whole sequence: a later call must not alter an earlier result either
+        return ("history", outs, None)
+    toks = _toks(c["text"])
+    if c["via"] == "object" or c["multi"]:
+        parser = fp.Parser(use_multigraph=c["multi"], init_aam=c["aam"])
+        for t in c["pre"]:
+            _call(parser.parse, t)
+        r = _call(parser.parse, c["text"], idx_offset=c["offset"])
+    else:
+        for t in c["pre"]:
+            _call(fp.parse, t)
+        r = _call(fp.parse, c["text"], idx_offset=c["offset"], init_aam=c["aam"])
+    if r[0] == "ok" and r[1].is_multigraph() != c["multi"]:
+        r = ("WrongClass", "graph class %s" % type(r[1]).__name__)
+    return r + (toks,)
 
 
 # ------------------------------------------------------------------ Coq terms
@@ -571,57 +666,82 @@ def mgraph(g):
     return "(%s : mgraph)" % ct.lst(entries)
 
 
-def out_term(c, out):
-    ty = "mgraph" if c["multi"] else "graph"
+def out_term(multi, out):
+    ty = "mgraph" if multi else "graph"
     if out[0] == "ok":
-        return "(Ok %s : result %s)" % (mgraph(out[1]) if c["multi"] else ct.graph(out[1]), ty)
+        return "(Ok %s : result %s)" % (mgraph(out[1]) if multi else ct.graph(out[1]), ty)
     if out[0] not in ERRS:
         raise ct.Unrepresentable("exception class %s (%s)" % (out[0], out[1]))
     return "(@Err %s %s)" % (ty, ERRS[out[0]])
 
 
-def coq_case(c, out):
-    defs = {"text": cstr(c["text"]),
-            "toks": "(%s : list (string * string))" % ct.lst(["(%s, %s)" % (cstr(t), cstr(v)) for t, v in out[2]]),
-            "out": out_term(c, out)}
-    aam, off = ct.b(c["aam"]), ct.z(c["offset"])
-    if c["multi"]:
-        model = "parse_multi %s %s $text" % (aam, off)
-        agree = "result_eqb mgraph_eqb (%s) $out" % model
+def one_text(text, chain, out, off, aam, multi, sfx=""):
+    """defs / checks / diag for ONE parsed text; sfx distinguishes the members of a history case."""
+    T, K, O, C = "$text" + sfx, "$toks" + sfx, "$out" + sfx, "$t" + sfx
+    defs = {"text" + sfx: cstr(text),
+            "toks" + sfx: "(%s : list (string * string))" % ct.lst(["(%s, %s)" % (cstr(t), cstr(v)) for t, v in out[2]]),
+            "out" + sfx: out_term(multi, out)}
+    aam, off = ct.b(aam), ct.z(off)
+    if multi:
+        model = "parse_multi %s %s %s" % (aam, off, T)
+        agree = "result_eqb mgraph_eqb (%s) %s" % (model, O)
     else:
-        model = "parse_simple %s %s $text" % (aam, off)
-        agree = "result_eqb graph_eqb (%s) $out" % model
+        model = "parse_simple %s %s %s" % (aam, off, T)
+        agree = "result_eqb graph_eqb (%s) %s" % (model, O)
     checks = {"agree": agree,
-              "tok": "option_eqb (list_eqb token_eqb) (tokenize $text) (Some $toks)",
+              "tok": "option_eqb (list_eqb token_eqb) (tokenize %s) (Some %s)" % (T, K),
               "print": "true", "spec": "true"}
-    diag = [model, "tokenize $text"]
-    if c["chain"] is not None:
-        defs["t"] = q_chain(c["chain"])
-        checks["print"] = "String.eqb (print $t) $text"
-        if c["multi"]:
-            eq = "match denote_multi %s %s $t with Some g => result_eqb same_mgraphb (Ok g) $out | None => false end" % (off, aam)
+    diag = [model, "tokenize " + T]
+    if chain is not None:
+        defs["t" + sfx] = q_chain(chain)
+        checks["print"] = "String.eqb (print %s) %s" % (C, T)
+        if multi:
+            eq = "match denote_multi %s %s %s with Some g => result_eqb same_mgraphb (Ok g) %s | None => false end" % (off, aam, C, O)
         else:
-            eq = "result_eqb same_graphb (Ok (denote_simple %s %s $t)) $out" % (off, aam)
-        if py_wf(c["chain"], c["multi"]):
-            checks["spec"] = "wf %s $t && %s" % (ct.b(c["multi"]), eq)
+            eq = "result_eqb same_graphb (Ok (denote_simple %s %s %s)) %s" % (off, aam, C, O)
+        if py_wf(chain, multi):
+            checks["spec"] = "wf %s %s && %s" % (ct.b(multi), C, eq)
         else:
-            checks["spec"] = "implb (wf_core $t && wf_lex $t) (%s)" % eq
-        diag += ["wf %s $t" % ct.b(c["multi"]), "print $t",
-                 ("denote_multi %s %s $t" if c["multi"] else "denote_simple %s %s $t") % (off, aam)]
-    return {"defs": defs, "checks": checks, "diag": diag}
+            checks["spec"] = "implb (wf_core %s && wf_lex %s) (%s)" % (C, C, eq)
+        diag += ["wf %s %s" % (ct.b(multi), C), "print " + C,
+                 ("denote_multi %s %s %s" if multi else "denote_simple %s %s %s") % (off, aam, C)]
+    return defs, checks, diag
+
+
+def coq_case(c, out):
+    if c["kind"] != "history":
+        defs, checks, diag = one_text(c["text"], c["chain"], out, c["offset"], c["aam"], c["multi"])
+        return {"defs": defs, "checks": checks, "diag": diag}
+    defs, diag = {}, []
+    checks = {cn: [] for cn in CHECKS}
+    for j, (text, chain, off, o) in enumerate(zip(c["texts"], c["chains"], c["offsets"], out[1])):
+        d, ch, dg = one_text(text, chain, o, off, c["aam"], c["multi"], sfx="_%d" % j)
+        defs.update(d)
+        diag += dg
+        for cn in CHECKS:
+            checks[cn].append("(%s)" % ch[cn])
+    return {"defs": defs, "checks": {cn: " && ".join(v) for cn, v in checks.items()}, "diag": diag}
 
 
 # ------------------------------------------------------------------ bookkeeping
 
 def describe(c):
-    return {"kind": c["kind"], "text": c["text"], "chain": c["chain"], "offset": c["offset"], "aam": c["aam"], "multi": c["multi"]}
+    d = {"kind": c["kind"], "text": c["text"], "chain": c["chain"], "offset": c["offset"], "aam": c["aam"], "multi": c["multi"],
+         "pre": c.get("pre", []), "via": c.get("via", "fresh")}
+    if c["kind"] == "history":
+        d.update({"texts": c["texts"], "offsets": c["offsets"], "chains": c["chains"], "call": c["call"]})
+    return d
 
 
 def from_json(d):
-    return {"kind": d["kind"], "text": d["text"], "chain": d.get("chain"), "offset": d["offset"], "aam": d["aam"], "multi": d["multi"]}
+    c = {"kind": d["kind"], "text": d["text"], "chain": d.get("chain"), "offset": d["offset"], "aam": d["aam"], "multi": d["multi"],
+         "pre": d.get("pre", []), "via": d.get("via", "fresh")}
+    if d["kind"] == "history":
+        c.update({"texts": d["texts"], "offsets": d["offsets"], "chains": d["chains"], "call": d.get("call", [False] * len(d["texts"]))})
+    return c
 
 
-def describe_out(out):
+def _describe_one(out):
     if out[0] == "ok":
         g = out[1]
         if g.is_multigraph():
@@ -631,19 +751,35 @@ def describe_out(out):
     return {"status": out[0], "msg": out[1]}
 
 
+def describe_out(out):
+    if out[0] == "history":
+        return {"status": "history", "results": [_describe_one(o) for o in out[1]]}
+    return _describe_one(out)
+
+
 def key(c):
-    return (c["text"], c["offset"], c["aam"], c["multi"])
+    if c["kind"] == "history":
+        return ("history", tuple(c["texts"]), tuple(c["offsets"]), c["aam"], c["multi"])
+    return (c["text"], c["offset"], c["aam"], c["multi"], tuple(c.get("pre", [])), c.get("via"))
 
 
 def nontrivial(c, out):
     if out[0] != "ok":
-        return True
+        return True         # rejected texts and histories
     t = c["text"]
     return out[1].number_of_nodes() >= 2 and any(ch in t for ch in "(.<0123456789")
 
 
 def classes(c, out):
     yield "kind=" + c["kind"]
+    yield "via=" + c.get("via", "fresh")
+    if c["kind"] == "history":
+        yield "history_len=%d" % len(c["texts"])
+        for o in out[1]:
+            yield "history_result=" + o[0]
+        yield "multi=%s" % c["multi"]
+        yield "aam=%s" % c["aam"]
+        return
     yield "result=" + out[0]
     yield "multi=%s" % c["multi"]
     yield "aam=%s" % c["aam"]
